@@ -49,6 +49,7 @@ def gen_cases(tier, seed):
             chain.append([rng.choice(["n", "top", "sub0", "a b", "x1"]), sorted(attrs.items(), key=lambda kv: rng.random())])
         cases.append({"mode": "repr", "node": rng.random() < 0.6, "sep": rng.choice(["/", ".", "::"]), "chain": chain})
         nrepr += 1
+    gen.sprinkle_adv(cases)
     meta = {"rule": "every ordered tree shape with <= %d nodes x every maxlevel in {None,0..h+1} x childiter in {list, "
                     "reversed, drop-first, drop-last, sort} x styles (4 built-in, 2 custom equal-width) x attribute values "
                     "(empty, one line, three lines, trailing newline, [], list, tuple, int, None) x selector (attribute "
